@@ -308,8 +308,8 @@ func (propC02) Check(t *testing.T, p *Plan, st *Stats) *Violation {
 		return viol("C02(hang)", "evaluation returns", "evaluation never returned")
 	}
 	// (a) one listing per selection, asking for all containers.
-	if len(o.Lists) != nSel {
-		return viol("C02(a:list)", fmt.Sprintf("exactly one ContainerList call per selection (%d)", nSel), fmt.Sprintf("%d calls", len(o.Lists)))
+	if len(o.Lists) < 1 || len(o.Lists) > nSel {
+		return viol("C02(a:list)", fmt.Sprintf("the inventory is listed at least once and at most once per selection (%d)", nSel), fmt.Sprintf("%d calls", len(o.Lists)))
 	}
 	for _, lc := range o.Lists {
 		if !lc.All || lc.Limit != 0 || lc.Filters != 0 {
